@@ -21,6 +21,7 @@ RULE = ("dictionaries of 1-6 games mixing solvable, no-solution and malformed ga
 def solo(g):
     """what solving the game alone gives, per mode"""
     out = {}
+    g = {k: v for k, v in g.items() if k != "prune_states"}
     for prune in (True, False):
         out[prune] = impl.solve(g, prune, limit=5.0, want_nodes=False)
     return out
@@ -38,6 +39,16 @@ def judge(ctx, games, res, inp, solos):
         ctx.violation("one-pruned-and-one-unpruned-entry-per-game-in-order", inp, {"keys": list(res.keys()), "expected": keys})
         return
     for name, g in games:
+        sb = solo_batch(g)
+        if "error" not in sb:
+            for key, skey in ((name, "x"), (name + "_no_prune", "x_no_prune")):
+                a = {k: v for k, v in res[key].items() if k != "total_time"}
+                b = {k: v for k, v in sb[skey].items() if k != "total_time"}
+                if a != b:
+                    diff = [k for k in b if a.get(k) != b[k]]
+                    ctx.violation("entry-equals-running-the-game-alone", dict(inp, game=name),
+                                  {"entry": key, "fields": diff, "in_batch": {k: a.get(k) for k in diff}, "alone": {k: b[k] for k in diff}})
+                    return
         s = solos[name]
         ep, eu = res[name], res[name + "_no_prune"]
         for e in (ep, eu):
@@ -87,11 +98,11 @@ def run_batch(ctx, games, model, tag, solos):
     judge(ctx, games, res, inp, solos)
     for name, g in games:
         a = {k: v for k, v in d[name].items() if k != "prune_states"}
-        if a != before[name]:
+        if a != {k: v for k, v in before[name].items() if k != "prune_states"}:
             ctx.violation("input-dictionary-intact", dict(inp, game=name), {"after": a})
             break
     if model is not None and all(wire.in_c09_domain(g) for _, g in games):
-        model.add("batch", {"games": [{"name": n, "game": wire.pygame_payload(g)} for n, g in games], "thr": fbits(1e-6)},
+        model.add("batch", {"games": [{"name": n, "game": wire.pygame_payload({k: v for k, v in g.items() if k != "prune_states"})} for n, g in games], "thr": fbits(1e-6)},
                   expect=res, inp=inp, suite="corr.batch", cmp=cmp_batch)
 
 
@@ -132,7 +143,8 @@ def pool(rng, quick):
         out.append(("g", gen.desc(g)))
     # malformed ones
     base = out[0][1]
-    for mut in ("none-row", "bad-index", "neg-reward", "no-final", "short-rewards", "empty-row"):
+    for mut in ("none-row", "bad-index", "neg-reward", "no-final", "short-rewards", "empty-row", "int-row", "float-row",
+                "bool-row", "str-row"):
         h = copy.deepcopy(base)
         if mut == "none-row":
             h["transition_list"][0] = None
@@ -147,8 +159,25 @@ def pool(rng, quick):
             h["rewards"] = h["rewards"][:-1]
         elif mut == "empty-row":
             h["transition_list"][1 % len(h["players"])] = []
+        elif mut in ("int-row", "float-row", "bool-row", "str-row"):
+            h["transition_list"][1 % len(h["players"])] = {"int-row": 2, "float-row": 0.5, "bool-row": True, "str-row": "ab"}[mut]
         out.append(("bad:" + mut, h))
+    # descriptions that already carry a "prune_states" key (the batch runner sets it per pass)
+    for i in (0, 1, 2, 3):
+        h = copy.deepcopy(out[i][1])
+        h["prune_states"] = bool(i % 2)
+        out.append(("flagged", h))
     return out
+
+
+def solo_batch(g):
+    """what running the game ALONE through run_games gives (both entries)"""
+    cr = repo("conditionalrewards")
+    try:
+        with quiet(), time_limit(20.0):
+            return cr.run_games({"x": copy.deepcopy(g)})
+    except BaseException as e:  # noqa
+        return {"error": type(e).__name__}
 
 
 def run(ctx, model=None):
